@@ -155,10 +155,11 @@ def run(ctx):
     correspond(ctx, "specialize_triangle", spec,
                [("shim.tri_specialize", a_spec, spec_out), ("hazmat.tri_specialize", a_spec, spec_out)],
                coq_spec, HEADER, "chk_tri_specialize", nontrivial=nontriv)
-    return finish(ctx, "theorems: triangle blossoming at the level of index functions (any ring, every degree); the hard-coded "
-                  "tables equal the generic path for all real nets (field over R, regenerated tables/weights). The list-level model "
-                  "of specialize_triangle (rounds applied directly, the dictionary memoisation is not modelled) is tied to the "
-                  "code by exact correspondence; its link to the index-function theory is by construction, not yet a Coq lemma",
+    return finish(ctx, "theorems: triangle blossoming at the level of index functions AND for the list-level model that is run "
+                  "against the code (specialize_tri returns the control net of mu -> B(mu1 a + mu2 b + mu3 c); every degree, any ring); "
+                  "the hard-coded tables equal the generic path for all real nets (field over R, regenerated tables/weights). The model "
+                  "applies the rounds directly: the dictionary memoisation of the Python code and the Fortran workspace scheme are tied "
+                  "by exact correspondence",
                   search=search,
-                  unproved=["lemma connecting the list model tri_round to the index-function operator D (stated in DESIGN.md)",
-                            "Fortran workspace scheme of specialize_triangle: tied by correspondence only"])
+                  unproved=["dictionary memoisation (Python) / odd-even workspaces (Fortran) of specialize_triangle: correspondence only",
+                            "rounding bound"])
